@@ -678,7 +678,11 @@ class Hist:
             if laser is not None:
                 with ctx.cut("observe:laser"):
                     lgeo = laser.get_geometry()
+                    kids = [c for c in laser.children if isinstance(c, Cylinder)]
                 o["laser_geometry"] = np.array(seg_triples(ctx, lgeo, "observe:laser_geometry")).ravel()
+                # what a ray meets is the scene graph: the segments the laser reports must be exactly its children
+                ctx.check(len(kids) == len(lgeo) and all(any(k is g for g in lgeo) for k in kids), self.kind + ":laser_children",
+                          lambda: "the laser reports %d segments but owns %d cylinder children in the scene graph" % (len(lgeo), len(kids)))
             with ctx.cut("observe:getters"):
                 o["params"] = np.array([getattr(obj, k) for k in PROFILE_KEYS[self.kind]], dtype=float)
         else:
@@ -702,9 +706,12 @@ class Hist:
         got = self._observe(self.obj, self.laser)
         with ctx.cut("construct-fresh"):
             fresh = build_profile(self.kind, self.p) if self.is_profile else build_spectrum(self.kind, self.p)
-        want = self._observe(fresh)
-        if self.is_profile:
-            want["laser_geometry"] = want["geometry"]
+            if self.is_profile:
+                # the reference lives in a laser of its own (same size, another world): two live lasers must not share anything
+                fresh_laser = Laser(parent=World())
+                fresh_laser.laser_profile = fresh
+        want = self._observe(fresh, fresh_laser if self.is_profile else None)
+        got = self._observe(self.obj, self.laser) if self.is_profile else got      # again, now that the second laser exists
         hist = "after %d setter(s) %s" % (self.n_set, sorted(self.names))
         for k in sorted(want):
             close_each(ctx, got[k], want[k], "%s:%s" % (self.kind, k), "[%s vs fresh object with %r]" % (hist, self.p))
@@ -770,6 +777,19 @@ class Hist:
                     obj.pulse_length = p["pulse_length"]
         self.n_set += 1
         self.names.add(name)
+
+
+def _reassign(self, arg):
+    """laser.laser_profile = <the profile it already has>: the final configuration is unchanged, later setters must still work."""
+    self._ensure()
+    with self.ctx.cut("set:laser_profile(same)"):
+        self.laser.laser_profile = self.obj
+    self.names.add("laser.laser_profile=same")
+
+
+Hist.OPS["reassign_profile"] = lambda: st.just(None)
+Hist.do_reassign_profile = _reassign
+Hist.pre_reassign_profile = lambda self: self.is_profile
 
 
 def _install_ops():
